@@ -149,6 +149,29 @@ theorem C18_secret_48_bits (H : Bytes → Bytes) (seed : Bytes) (i j : Nat)
   unfold commitSecret derive
   exact deriveWith_congr _ 48 seed i j h
 
+/-! ## The LDK keys id is always a valid hardened BIP32 index -/
+
+/-- after the generated masks (`res[0..4] = 0`, `res[4] &= 0x7f`) the big-endian value of the first
+eight bytes is below `2^31`, whatever HKDF returned … -/
+theorem C18_ldk_keys_id_in_range (b0 b1 b2 b3 b4 b5 b6 b7 : UInt8) (rest : Bytes) :
+    be64 (applyMask ldkKeysIdMask (b0 :: b1 :: b2 :: b3 :: b4 :: b5 :: b6 :: b7 :: rest)) < 2 ^ 31 := by
+  have h4 : b4.toNat &&& 127 ≤ 127 := Nat.and_le_right
+  have h5 := b5.toNat_lt
+  have h6 := b6.toNat_lt
+  have h7 := b7.toNat_lt
+  simp [applyMask, ldkKeysIdMask, List.modify, be64, List.take, List.foldl]
+  omega
+
+/-- … so `LdkKeyDerive::channel_keys` never hits `assert!(chan_id <= u32::MAX)` nor the
+`from_hardened_idx(..).expect("key space exhausted")` on a keys id produced by `keys_id` -/
+theorem C18_ldk_no_panic (child : Bytes → Net → Nat → Bytes) (seed : Bytes) (net : Net) (bpi : Nat)
+    (b0 b1 b2 b3 b4 b5 b6 b7 : UInt8) (rest : Bytes) :
+    (ldkChanKeysFn child
+      ⟨seed, net, applyMask ldkKeysIdMask (b0 :: b1 :: b2 :: b3 :: b4 :: b5 :: b6 :: b7 :: rest), bpi⟩).isSome = true := by
+  have h := C18_ldk_keys_id_in_range b0 b1 b2 b3 b4 b5 b6 b7 rest
+  unfold ldkChanKeysFn
+  simp only [ge_iff_le, Nat.not_le.mpr h, if_false, Option.isSome_some]
+
 /-! ## Distinct ids
 
 Full-strength statement (what the property says):
